@@ -39,14 +39,18 @@ Print Assumptions C10_gen_child_defaults.
 
 (* the skip count (C14 reads it): SetSkip(n) and withSkip(n) store exactly n, whatever n and whatever was stored;
    WithSkip(n) asks newChildLogger for the child named c/<name>[<n>] - with the receiver's name and the SAME n in
-   decimal - and sets the count n on THAT child *)
+   decimal - and sets the count n on THAT child; on EVERY call (whatever the receiver's children [items] are: a child
+   found again gets the count too) and with the name as DATA (a name containing % is not read as a format: a format
+   computed from the name would be Dec.go_sprintf of it); nothing else is done to the child - its format flags, level
+   and count are not written from the receiver's (the setters are inputs the result does not mention) *)
 Theorem C10_gen_set_skip : forall s old n,
   Loggers.set_skip s old n = n /\ Loggers.with_skip s old n = (s, n).
 Proof. intros s old n. split; [apply GenTreeP.gen_set_skip|apply GenTreeP.gen_with_skip]. Qed.
 Print Assumptions C10_gen_set_skip.
 
-Theorem C10_gen_with_skip_child : forall newChild withSkip name old n,
-  Loggers.with_skip_child newChild withSkip name old n = withSkip (newChild (skip_child_name name n)) n.
+Theorem C10_gen_with_skip_child : forall newChild withSkip set_json set_color set_level set_extra name old lvl json color items n,
+  Loggers.with_skip_child newChild withSkip set_json set_color set_level set_extra name old lvl json color items n
+  = withSkip (newChild (skip_child_name name n)) n.
 Proof. exact GenTreeP.gen_with_skip_child. Qed.
 Print Assumptions C10_gen_with_skip_child.
 
